@@ -289,6 +289,20 @@ def _worker_chunk(args):
     return res
 
 
+def fork_map(fn, items, workers):
+    """Map fn over items in forked worker processes (order preserved)."""
+    if not items:
+        return []
+    ctx = multiprocessing.get_context("fork")
+    with cf.ProcessPoolExecutor(max_workers=max(1, min(workers, len(items))), mp_context=ctx) as pool:
+        return list(pool.map(fn, items))
+
+
+def empty_agg():
+    return {"evaluations": 0, "runs": 0, "digests": set(), "nontrivial": set(), "abstractions": set(),
+            "steps": 0, "faults": {}, "probes": {}, "violations": [], "samples": []}
+
+
 def _probe_body(case):
     out = _MOD.execute(case)
     return out.to_json()
@@ -456,9 +470,7 @@ def run_batch(mod, prop, tier, batch_seed, repo, workers, runs_override=None, wa
     wall_cap = wall_override if wall_override is not None else plan.get("wall_cap", 600)
     chunk_timeout = plan.get("chunk_timeout", 600)
 
-    total = {"evaluations": 0, "runs": 0, "digests": set(), "nontrivial": set(),
-             "abstractions": set(), "steps": 0, "faults": {}, "probes": {},
-             "violations": [], "samples": []}
+    total = empty_agg()
     extra_cov = {}
     known = core.load_known_findings(prop)
     printed_known = []
